@@ -11,7 +11,9 @@ EXTRA = {"C15-B": ["C15", "C16"], "C12-B": ["C12", "C14"],
          "C02-G": ["C02", "C14"], "C17-H": ["C17", "C13"], "C11-H": ["C11", "C10"], "C16-G": ["C16", "C17"], "C03-H": ["C03", "C13"],
          "C02-J": ["C02", "C05"], "C08-J": ["C08", "C17"], "C11-J": ["C11", "C10"], "C14-I": ["C14", "C02"],
          "C16-J": ["C16", "C13"], "C16-I": ["C16", "C17"], "C06-J": ["C06", "C11"], "C19-J": ["C19", "C13"],
-         "C07-I": ["C07", "C08"], "C15-I": ["C15", "C17"]}
+         "C07-I": ["C07", "C08"], "C15-I": ["C15", "C17"],
+         "C02-K": ["C02", "C13"], "C03-L": ["C03", "C13"], "C19-L": ["C19", "C10"], "C07-K": ["C07", "C04"],
+         "C07-L": ["C07", "C08"]}
 ids = sys.argv[1:] or sorted(os.listdir(os.path.join(HERE, "seeded")))
 head = subprocess.check_output(["git", "-C", "/repo", "rev-parse", "--short", "HEAD"]).decode().strip()
 rows = []
